@@ -203,6 +203,28 @@ Section C13.
     intros d d' H E. rewrite (back_of d d' H E). split; [apply xyz_back; assumption | intros i; apply obs_back; assumption].
   Qed.
 
+  (* import_colmap has no memory: the model of a call is a function of the exported artefacts and the options of
+     THAT call, so in any history of calls made in one process (other datasets, database only, text only,
+     skip_reconstruction, no_geometric_filtering, in any order) each call returns what it returns alone; and the
+     call with database + reconstruction and nothing skipped is the round trip all the theorems above are about.
+     (The correspondence runs such histories in one interpreter and compares every step with its own model.) *)
+  Theorem C13_history_independent : forall (h1 h2 : list (iopts * dataset)) o d,
+    nth_error (run_history comp tok show read cam_name ids names Tcolmap.unknown_camera Tcolmap.unknown_camera_exported_as
+                           Tcolmap.default_focal_length_factor MAXID false (h1 ++ (o, d) :: h2)) (List.length h1)
+    = Some (roundtrip_mode comp tok show read cam_name ids names Tcolmap.unknown_camera Tcolmap.unknown_camera_exported_as
+                           Tcolmap.default_focal_length_factor MAXID false o d).
+  Proof. intros. apply run_history_nth. Qed.
+
+  Theorem C13_full_import_in_any_history : forall (h1 h2 : list (iopts * dataset)) g d, IR d = true ->
+    exists d', nth_error (run_history comp tok show read cam_name ids names Tcolmap.unknown_camera
+                                      Tcolmap.unknown_camera_exported_as Tcolmap.default_focal_length_factor MAXID false
+                                      (h1 ++ (mkIO SBoth false g, d) :: h2)) (List.length h1) = Some (ROk d')
+               /\ RT d = ROk d'.
+  Proof.
+    intros h1 h2 g d H. destruct (C13_roundtrip_never_raises d H) as [d' E]. exists d'. split; [|exact E].
+    rewrite run_history_nth, roundtrip_mode_full. f_equal. exact E.
+  Qed.
+
   (* colours come back too when they are integers (COLMAP stores bytes) *)
   Theorem C13_points_with_integer_colours : forall d d', IR d = true -> RT d = ROk d' ->
     (forall r, In r (d_points d) -> List.length r = 6%nat /\ forallb is_int (skipn 3 r) = true) ->
@@ -221,6 +243,8 @@ Print Assumptions C13_rig_mounted_world_pose.
 Print Assumptions C13_features.
 Print Assumptions C13_matches.
 Print Assumptions C13_structure.
+Print Assumptions C13_history_independent.
+Print Assumptions C13_full_import_in_any_history.
 Print Assumptions C13_points_with_integer_colours.
 
 (* ------------------------------------------------------------------ non-vacuity: a concrete in-range dataset where
